@@ -1808,7 +1808,8 @@ class InterpComp:
             raise Unsupported(f'assignment target {type(tgt).__name__}')
 
     def quantified_gen(self, gen, want):
-        """Summarise a single-generator comprehension over a symbolic collection.
+        """Summarise a comprehension over symbolic collection(s) (one generator, or nested generators all of which
+        range over symbolic collections: the bound variables and guards of the generators are accumulated).
         want: 'any' / 'all' -> Bool term; 'elems' -> (vars, guard(with ifs), value) for further use."""
         node, fr = gen.node, gen.frame
         if len(node.generators) != 1:
@@ -1825,19 +1826,30 @@ class InterpComp:
             self.mode = GENERIC
         self.run.push()
         try:
-            self.run.assume(guard)
-            self.assume_domain(val)
-            self.bind_target(g.target, val, sub)
-            conds = [guard]
-            for c in g.ifs:
-                ct = self.as_bool(self.truthy(self.ev(c, sub)))
-                conds.append(ct)
-                self.run.assume(ct)
+            all_vars, conds, first_coll = [], [], None
+            for g in node.generators:
+                if g.is_async:
+                    raise Unsupported('async generator')
+                coll = self.ev(g.iter, sub)
+                if len(node.generators) > 1 and self.iter_const(coll) is not None:
+                    raise Unsupported('nested generators mixing constant and symbolic collections')
+                if first_coll is None:
+                    first_coll = coll
+                vars_, guard, val = self.generic_iter(coll)
+                all_vars.extend(vars_)
+                self.run.assume(guard)
+                self.assume_domain(val)
+                self.bind_target(g.target, val, sub)
+                conds.append(guard)
+                for c in g.ifs:
+                    ct = self.as_bool(self.truthy(self.ev(c, sub)))
+                    conds.append(ct)
+                    self.run.assume(ct)
             elt = self.ev(node.elt, sub) if want != 'guard' else None
         finally:
             self.run.pop()
             self.mode = saved
-        return ('sym', vars_, z3.And(conds) if len(conds) > 1 else conds[0], elt, coll)
+        return ('sym', all_vars, z3.And(conds) if len(conds) > 1 else conds[0], elt, first_coll)
 
     def _quantified_gen_nested(self, node, fr, want):
         """several `for` clauses, all over symbolic collections (later ones may depend on earlier targets): one bound
